@@ -611,7 +611,7 @@ func init() {
 	fw.Register(&fw.Check{
 		ID:    "C15",
 		Level: "model_checking",
-		Rule: "(provider/google-directory-breaker) the breaker where it is deployed — real GoogleProvider, real GoogleAdminService over an in-memory Admin SDK transport, the provider's own settings, clock frozen: every sequence of <= 5 operations from {token validation accepted / refused, directory question answered / failing}; a directory question must reach the directory exactly when a reference breaker fed with DIRECTORY outcomes only is closed. " +
+		Rule: "(provider/google-directory-breaker) the breaker where it is deployed — real GoogleProvider, real GoogleAdminService over an in-memory Admin SDK transport, the provider's own settings, clock frozen: every sequence of <= 5 operations from {token validation accepted / refused, directory question (hasMember) answered / failing / rejected as an invalid member key, member listing answered / failing}; both directory endpoints share ONE breaker; a directory question must reach the directory exactly when a reference breaker fed with DIRECTORY outcomes only is closed. " +
 			"(all other scenarios) stateless DFS over choice vectors of the REAL circuit.Breaker under a cooperative scheduler: threads = 2-3 callers x 2-3 Call()s + 1 clock thread (advance past back-off); " +
 			"choice points = which enabled thread runs next at every mutex acquisition / in-flight point (in the *-statement-granularity scenarios: before every statement of breaker.go, so interleavings of unsynchronised statements are explored too) (switching away from a runnable thread costs 1 preemption, bound per scenario) and the outcome (ok/fail) of every admitted call; " +
 			"oracle = existence of a linearisation of the three-state reference machine (closed/open/half-open, epochs, stale completions ignored, <=N in half-open, trip/reset thresholds, hooks+back-off sequence) explaining the observed history, plus in-flight count >= 0 at every harness event, no deadlock, no panic; " +
